@@ -212,12 +212,53 @@ static void bell_one(double jm, double am, double vm, double p0, double p1, doub
     }
 }
 
+// ---------------------------------------------------------------- evaluation again after the plan changed in place
+// gen on the same object between two evaluations at the same time: straight-line code through opaque pointers at -O2
+static __attribute__((noinline)) void plan_twice(a_trajtrap *t, a_trajbell *b, a_real x, a_real *out)
+{
+    a_trajtrap_gen(t, 2, 2, -2, 0, 4, 0, 0);
+    a_trajbell_gen(b, 4, 2, 2, 0, 4, 0, 0);
+    out[0] = a_trajtrap_pos(t, x); out[1] = a_trajtrap_vel(t, x); out[2] = a_trajtrap_acc(t, x);
+    out[3] = a_trajbell_pos(b, x); out[4] = a_trajbell_vel(b, x); out[5] = a_trajbell_acc(b, x); out[6] = a_trajbell_jer(b, x);
+    a_trajtrap_gen(t, 1, 1, -1, 7, 10, 0, 0);
+    a_trajbell_gen(b, 2, 1, 1, 7, 10, 0, 0);
+    out[7] = a_trajtrap_pos(t, x); out[8] = a_trajtrap_vel(t, x); out[9] = a_trajtrap_acc(t, x);
+    out[10] = a_trajbell_pos(b, x); out[11] = a_trajbell_vel(b, x); out[12] = a_trajbell_acc(b, x); out[13] = a_trajbell_jer(b, x);
+}
+static void reread()
+{
+    if (R.shard.idx != 0) { return; }
+    a_trajtrap t, t1, t2;
+    a_trajbell b, b1, b2;
+    memset(&t, 0x41, sizeof t); memset(&t1, 0x41, sizeof t1); memset(&t2, 0x41, sizeof t2);
+    memset(&b, 0x41, sizeof b); memset(&b1, 0x41, sizeof b1); memset(&b2, 0x41, sizeof b2);
+    a_real out[14];
+    a_trajtrap *volatile vt = &t;
+    a_trajbell *volatile vb = &b;
+    const a_real x = (a_real)0.75;
+    plan_twice(vt, vb, x, out);
+    // the reference objects are planned once each and evaluated separately
+    a_trajtrap_gen(&t1, 2, 2, -2, 0, 4, 0, 0); a_trajbell_gen(&b1, 4, 2, 2, 0, 4, 0, 0);
+    a_trajtrap_gen(&t2, 1, 1, -1, 7, 10, 0, 0); a_trajbell_gen(&b2, 2, 1, 1, 7, 10, 0, 0);
+    a_real want[14] = {a_trajtrap_pos(&t1, x), a_trajtrap_vel(&t1, x), a_trajtrap_acc(&t1, x), a_trajbell_pos(&b1, x), a_trajbell_vel(&b1, x), a_trajbell_acc(&b1, x), a_trajbell_jer(&b1, x),
+                       a_trajtrap_pos(&t2, x), a_trajtrap_vel(&t2, x), a_trajtrap_acc(&t2, x), a_trajbell_pos(&b2, x), a_trajbell_vel(&b2, x), a_trajbell_acc(&b2, x), a_trajbell_jer(&b2, x)};
+    static const char *FN[7] = {"a_trajtrap_pos", "a_trajtrap_vel", "a_trajtrap_acc", "a_trajbell_pos", "a_trajbell_vel", "a_trajbell_acc", "a_trajbell_jer"};
+    int differ = 0; // the two plans must be told apart by the evaluation point, or the test says nothing
+    for (int i = 0; i < 7; ++i) { differ += want[i] != want[i + 7]; }
+    if (differ < 4) { vx::info("traj_reread", "\"weak: the two plans agree at the evaluation point\""); }
+    for (int i = 0; i < 14; ++i)
+    {
+        if (out[i] != want[i]) { R.viol(std::string(FN[i % 7]) + "|reread", std::string(FN[i % 7]) + (i >= 7 ? " evaluated again on an object that was re-planned in place" : " on a freshly planned object") + " returned " + num((double)out[i]) + ", a separately planned object gives " + num((double)want[i]), "{\"call\":" + std::to_string(i) + "}"); }
+    }
+}
+
 int main(int argc, char **argv)
 {
     vx::Args args(argc, argv);
     R.init(args);
     bool thorough = R.tier == "thorough";
     return vx::run_contained([&] {
+        reread();
         std::vector<double> DIST = {0.125, 0.25, 0.5, 0.75, 1, 1.5, 2.25, 3, 4.5, 6, 9};
         std::vector<double> TV = {0.5, 1.0, 2.0, 3.0}, TA = {0.5, 1.0, 2.0, 3.0}, BJ = {1.0, 2.0, 4.0, 8.0, 30.0}, BA = {0.5, 1.0, 2.0, 3.0, 10.0}, BV = {0.5, 1.0, 2.0, 3.0, 5.0};
         if (thorough)
